@@ -56,7 +56,7 @@ def crafted_files(run, tier):
         try:
             writers.numpy_to_sgz(p, cube, rate, bs, ilines=(np.arange(wshape[0]) + 100010) if big else np.arange(wshape[0]) * 2 + 10,
                                  xlines=(np.arange(wshape[1]) * 2 + 150000) if big else np.arange(wshape[1]) + 5,
-                                 samples=np.arange(wshape[2]) * 4.0)
+                                 samples=(0.0, 100.0, -1000.0)[k % 3] + np.arange(wshape[2]) * 4.0)       # axis from zero / starting later / wholly before zero
         except BaseException as e:
             run.notes.append(f'writer refused {wshape} {rate} {bs}: {type(e).__name__}: {e}')
             continue
@@ -79,7 +79,7 @@ def crafted_2d(run, tier):
         data = inputs.cube(wshape, run.seed + 30 + k, 'noise')
         hdrs = [{segyio.TraceField.CDP_X: 100 + t, segyio.TraceField.CDP_Y: 7 * t, segyio.TraceField.CDP: t + 1}
                 for t in range(wshape[0])]
-        inputs.write_segy_traces(sgy, data, np.arange(wshape[1]) * 4.0, hdrs)
+        inputs.write_segy_traces(sgy, data, (100.0, 0.0)[k % 2] + np.arange(wshape[1]) * 4.0, hdrs)
         try:
             writers.segy_to_sgz(sgy, p, rate, bs)
         except BaseException as e:
@@ -107,6 +107,15 @@ def run(run):
     calls = []
     NONE = readcalls.NONE
     for fi, fc in enumerate(cases):
+        # the sample time 0 when it lies OUTSIDE the axis (an axis that starts later, or lies wholly before zero): out of range like any other
+        z0, dz, nz_ = fc.meta['z0'], fc.meta['dz'], fc.F['n'][2]
+        if dz and (z0 / dz).denominator == 1 and (z0 > 0 or z0 + dz * (nz_ - 1) < 0):
+            c0 = int(-2 * z0 / dz)
+            t = readcalls.tracecount(fc.F) - 1
+            for a in ([t, c0, 2 * min(nz_, 3)], [0, 2, c0], [t, c0, c0], [0, c0, NONE], [t, NONE, c0]):
+                calls.append((fi, 'get_trace_by_coord', a))
+            if fc.F['dim'] == 3:
+                calls.append((fi, 'read_zslice_coord', [c0]))
         for j, (op, a) in enumerate(readcalls.out_of_range_calls(fc.F, rng)):
             calls.append((fi, op, a))
             if j % 12 == 11:        # a valid call on the reader that has just refused a dozen: a refusal leaves nothing behind
